@@ -21,7 +21,8 @@ What is abstract / fixed:
 * configuration: `CreateEmptyBlocks = true`, `CreateEmptyBlocksInterval = 0`
   (`WaitForTxs() = false`), `SkipTimeoutCommit = false`; the node is a validator with a
   working signer.  `LastCommit` (precommits of the previous height arriving during
-  `NewHeight`) only feeds the content of the next proposal and is not modelled.
+  `NewHeight`) only feeds the content of the next proposal and is not modelled — except that
+  it is nil at the initial height (1), where adding to it panics.
 * time: durations are dropped; the ticker keeps the single pending timeout.
 * ghost field `sent`: every vote this node ever signed, in order (never read by the model).
 -/
@@ -136,24 +137,25 @@ def HVS.putVoteSet (h : HVS) (round : Nat) (t : VType) (vs : C35.VoteSet) : HVS 
       | .precommit => { rv with precommits := vs }
     { h with sets := C35.alSet round rv' h.sets }
 
+/-- the tail of `HeightVoteSet.AddVote`: `voteSet.AddVote(vote)` on the set of the vote's round -/
+def HVS.addVoteTo (h1 : HVS) (v : Vote) (sigOk : Bool) : HVS × Bool :=
+  match h1.getVoteSet v.round v.type with
+  | none => (h1, false)
+  | some vs =>
+    let r := C35.addVote vs (some (toC35 v sigOk))
+    (h1.putVoteSet v.round v.type r.1, r.2.added)
+
 /-- `HeightVoteSet.AddVote(vote, peerID)`: returns the new sets and `added` -/
 def HVS.addVote (h : HVS) (v : Vote) (peer : Nat) (sigOk : Bool) : HVS × Bool :=
-  let h1? : Option HVS :=
-    match h.getVoteSet v.round v.type with
-    | some _ => some h
-    | none =>
-      let rndz := (C35.alGet peer h.peerCatchup).getD []
-      if rndz.length < 2 then
-        some { (h.addRound v.round) with peerCatchup := C35.alSet peer (rndz ++ [v.round]) h.peerCatchup }
-      else none                       -- ErrGotVoteFromUnwantedRoundError
-  match h1? with
-  | none => (h, false)
-  | some h1 =>
-    match h1.getVoteSet v.round v.type with
-    | none => (h1, false)
-    | some vs =>
-      let r := C35.addVote vs (some (toC35 v sigOk))
-      (h1.putVoteSet v.round v.type r.1, r.2.added)
+  match h.getVoteSet v.round v.type with
+  | some _ => h.addVoteTo v sigOk
+  | none =>
+    -- a round we do not track: each peer may open two "catch-up" rounds
+    let rndz := (C35.alGet peer h.peerCatchup).getD []
+    if rndz.length < 2 then
+      HVS.addVoteTo { (h.addRound v.round) with peerCatchup := C35.alSet peer (rndz ++ [v.round]) h.peerCatchup }
+        v sigOk
+    else (h, false)                       -- ErrGotVoteFromUnwantedRoundError
 
 /-- `SetPeerMaj23(round, type, peerID, blockID)` -/
 def HVS.setPeerMaj23 (h : HVS) (round : Nat) (t : VType) (peer : Nat) (b : Option Block) : HVS :=
@@ -470,7 +472,12 @@ def afterPrecommit (k : NodeCfg) (s : Node) (v : Vote) : Node :=
 
 /-- `tryAddVote` / `addVote` -/
 def addVote (k : NodeCfg) (s : Node) (v : Vote) (peer : Nat) (sigOk : Bool) : Node :=
-  if v.height + 1 = s.height then s        -- LastCommit straggler or ErrVoteHeightMismatch
+  if v.height + 1 = s.height then
+    -- A precommit for the previous height while waiting in NewHeight goes to `cs.LastCommit.AddVote`
+    -- (anything else: ErrVoteHeightMismatch).  At the initial height `cs.LastCommit` is nil and
+    -- `(*VoteSet)(nil).AddVote` panics — before any signature or validator check.
+    if s.step = .newHeight ∧ v.type = .precommit ∧ s.height = 1 then { s with halted := true }
+    else s
   else if v.height ≠ s.height then s       -- ErrVoteHeightMismatch
   else
     let r := s.votes.addVote v peer sigOk
